@@ -808,6 +808,9 @@ class InplaceLog(Component):
 
 
 # ----------------------------------------------------------------------------- constructor validation (C15)
+REORDERED_SIG = ("<vertices-reordered>", frozenset(), frozenset(), frozenset(), "", 0)
+
+
 class TestsPassed(Component):
     """which decision tests (by provenance signature) have been evaluated on the path; raises are attributed
     to the tests evaluated before them."""
@@ -833,6 +836,11 @@ class TestsPassed(Component):
     def on_event(self, interp, st, ev):
         if ev.type == "raise":
             self.raises.append((ev.exc, st.comp[self.name], ev))
+        elif ev.type == "write" and ev.loc[1] == "_vertices" and ev.f.get("rhs") is not None and any(
+                isinstance(t_, tuple) and t_ and t_[0] in ("copy-of", "reorder-of", "reverse-of") and any(
+                    isinstance(l_, tuple) and l_[-1] == "_vertices" for l_ in (t_[1] if isinstance(t_[1], tuple) else ())) for t_ in ev.rhs.tags):
+            # a row selection of the vertex array stored back into it: on this path the vertices have been (re)ordered
+            st.comp[self.name] = st.comp[self.name] | {REORDERED_SIG}
 
 
 class PathConds(Component):
